@@ -89,6 +89,9 @@ func watchHang(r *rec, out string, extra map[string]interface{}, limit time.Dura
 		}
 		buf := make([]byte, 1<<20)
 		buf = buf[:runtime.Stack(buf, true)]
+		if inKernel(string(buf)) && time.Since(time.Unix(0, lastBeat.Load())) < 4*limit {
+			continue // waiting for the kernel (close of an inotify instance on a loaded machine), not for the library
+		}
 		ctx := map[string]interface{}{"last_seq": r.seq, "goroutines": string(buf), "idle_seconds": limit.Seconds()}
 		hangCtx.Range(func(k, v interface{}) bool { ctx[k.(string)] = v; return true })
 		b, _ := json.MarshalIndent(ctx, "", " ")
